@@ -30,12 +30,14 @@ import (
 
 // Finding ids of this property (see notes/C14.md).
 const (
-	idRowKey        = "C14-rowkey-concat"   // false duplicate: composite PK parts concatenated without separator
-	idCIKey         = "C14-ci-key"          // missed duplicate: key columns with a case-insensitive collation compared byte-wise
-	idPrefixBytes   = "C14-prefix-bytes"    // false duplicate: prefix length of a unique key applied in bytes
-	idAddUniqueLeft = "C14-add-unique-left" // a failed ALTER TABLE ADD UNIQUE (prefix key) leaves the unique index over violating rows
-	idAddUniqueType = "C14-add-unique-type" // false duplicate: ALTER TABLE ADD UNIQUE compares the key values under the types of the table's leading columns
-	idDeletedUnique = "C14-deleted-unique"  // missed duplicate: unique check gives up when a same-valued row was deleted earlier in the statement
+	idRowKey      = "C14-rowkey-concat" // false duplicate: composite PK parts concatenated without separator
+	idCIKey       = "C14-ci-key"        // missed duplicate: key columns with a case-insensitive collation compared byte-wise
+	idPrefixBytes = "C14-prefix-bytes"  // false duplicate: prefix length of a unique key applied in bytes
+	// ALTER TABLE ADD UNIQUE: the duplicate pre-check of the new index compares the key values under the types of the
+	// table's *leading* columns (false duplicates) and ignores prefix lengths (a prefix duplicate is found only
+	// while the index is built, and that late failure can leave the unique index behind over the violating rows)
+	idAddUnique     = "C14-add-unique-precheck"
+	idDeletedUnique = "C14-deleted-unique" // missed duplicate: unique check gives up when a same-valued row was deleted earlier in the statement
 )
 
 var known = map[string]string{
@@ -43,8 +45,8 @@ var known = map[string]string{
 	tmodel.FlagCIKey:         idCIKey,
 	tmodel.FlagPrefixBytes:   idPrefixBytes,
 	tmodel.FlagDeletedUnique: idDeletedUnique,
-	tmodel.FlagAddUniqueLeft: idAddUniqueLeft,
-	tmodel.FlagAddUniqueType: idAddUniqueType,
+	tmodel.FlagAddUniqueLeft: idAddUnique,
+	tmodel.FlagAddUniqueType: idAddUnique,
 }
 
 func profile() tmodel.Profile {
@@ -166,7 +168,7 @@ func TestC14Witness(t *testing.T) {
 			{"INSERT INTO t VALUES (1, 'áx')", "ok", nil},
 			{"INSERT INTO t VALUES (2, 'éx')", "ok", [][]string{{"n:1", "s:áx"}, {"n:2", "s:éx"}}},
 		}},
-		{idAddUniqueLeft, "a failed ALTER TABLE ADD UNIQUE (s(1)) leaves the unique index behind, over rows that violate it", []step{
+		{idAddUnique, "a failed ALTER TABLE ADD UNIQUE (s(1)) leaves the unique index behind, over rows that violate it", []step{
 			{"CREATE TABLE t (pk INT PRIMARY KEY, s VARCHAR(8))", "ok", nil},
 			{"INSERT INTO t VALUES (1, 'ab'), (2, 'ac')", "ok", nil},
 			{"ALTER TABLE t ADD UNIQUE KEY x7 (pk)", "ok", nil},
@@ -174,7 +176,7 @@ func TestC14Witness(t *testing.T) {
 			{"ALTER TABLE t ADD UNIQUE KEY x9 (s(1))", "dup", nil},
 			{"INSERT INTO t VALUES (3, 'ad')", "ok", [][]string{{"n:1", "s:ab"}, {"n:2", "s:ac"}, {"n:3", "s:ad"}}},
 		}},
-		{idAddUniqueType, "ALTER TABLE ADD UNIQUE on a binary column reports 'a'/'A' as duplicates because the table's first column is case-insensitive", []step{
+		{idAddUnique, "ALTER TABLE ADD UNIQUE on a binary column reports 'a'/'A' as duplicates because the table's first column is case-insensitive", []step{
 			{"CREATE TABLE t (c0 VARCHAR(8) COLLATE utf8mb4_general_ci, c1 VARCHAR(8))", "ok", nil},
 			{"INSERT INTO t VALUES ('x', 'a'), ('y', 'A')", "ok", nil},
 			{"ALTER TABLE t ADD UNIQUE KEY x1 (c1)", "ok", nil},
@@ -221,6 +223,9 @@ func TestC14Witness(t *testing.T) {
 		f.Close()
 		if bad == "" {
 			st.Class("witness-no-longer-reproduces:" + c.id)
+			if kf.Listed(c.id) {
+				t.Logf("STALE: finding %s is listed as known but its witness (%s) satisfies the property now", c.id, c.what)
+			}
 			continue
 		}
 		st.NonTrivial(map[string]string{"finding": c.id, "observed": bad}, c.id, c.what)
